@@ -169,6 +169,21 @@ DECODE_EXC = {
     ("<buffertk::varint::v64 as core::convert::Into>::into", "unwrap(core::num::error::TryFromIntError)"):
         "u64 -> usize is infallible on the 64-bit targets this workspace builds for (the crate tests the assumption)",
 }
+BOUNDS_EXC = {
+    ("<prototk::FieldIterator as core::iter::traits::iterator::Iterator>::next", "range"): (2,
+        "`&buf[0..x.pack_sz()]` / `&buf[0..x.pack_sz() + sz]`: buf is remain() taken before the varint x was unpacked from it; the canonical "
+        "size of x is at most the number of bytes that unpack consumed (the canonical varint is the shortest), and sz <= remain().len() is "
+        "checked after it, so the end is within buf"),
+    ("buffertk::varint::v64::unpack_size", "index"): (1,
+        "`buf[SZ - 1]`: precondition buf.len() >= 10 >= SZ, established at every call site (checked below as C15.2b precondition)"),
+    ("buffertk::varint::v64::unpack_size", "range"): (1,
+        "`&buf[SZ..]`: same precondition buf.len() >= 10 >= SZ"),
+    ("buffertk::varint::v64::unpack_slow", "index"): (2,
+        "`buf[idx]` in the loop: idx + 1 < bytes and bytes = min(buf.len(), 10); after the loop `!buf.is_empty()` is tested first and idx has "
+        "only been incremented while idx + 1 < bytes, so idx <= bytes - 1 < buf.len() (loop invariant, by reading)"),
+    ("buffertk::varint::v64::unpack_slow", "range"): (1,
+        "`&buf[idx..]` after `idx += 1` that directly follows the successful `buf[idx]` read: idx <= buf.len()"),
+}
 RERR_EXC = {
     ("<core::result::Result as buffertk::Unpackable>::unpack", "unwrap(<varint::v64 as convert::TryInto>::try_into)"):
         "tag.try_into().unwrap() directly follows `if tag > u32::MAX { return Err(tag_too_large) }`",
@@ -204,6 +219,30 @@ def c152(ctx):
                                                         "expression itself is an implicit bounds check (observation O8, outside this audit)")
     n = K.panic_audit(ctx, R, audit, exc)
     ctx.ok(R, "prototk", "audited %d functions reachable from %d decode entry points; %d explicit panic constructs examined" % (len(audit), len(entries), n))
+    # implicit panics: every index / range-slice expression of the decode path is in range
+    nb, pb = K.bounds_audit(ctx, R + "b", audit, BOUNDS_EXC)
+    ctx.declare(R + "b", "decoding never indexes a buffer beyond the length a dominating comparison established for that same buffer")
+    ctx.floor(R + "b", "index / slice sites on the decode path", nb, 20)
+    # interprocedural precondition of the unrolled varint decoder: every caller has established buf.len() >= 10 and SZ <= 10
+    from blue import bounds as B
+    ncall = 0
+    for f in ctx.prog.fns.values():
+        if f.crate != "buffertk":
+            continue
+        bf = None
+        for b, t in f.calls():
+            if (callee_skey(t) or "") != "buffertk::varint::v64::unpack_size":
+                continue
+            ncall += 1
+            bf = bf or B.BF(ctx.prog, f)
+            pt = P.term_pt(f, b.idx)
+            m = re.match(r"^\[(\d+)_usize\]$", t.get("ga") or "")
+            sz = int(m.group(1)) if m else None
+            why = bf.prove(("c", 10), False, ("len", bf.root(t["args"][0])), pt)
+            ctx.check(R + "b", f, "unpack_size-precondition", bool(why) and sz is not None and 1 <= sz <= 10,
+                      "unpack_size::<%s> is called with buf.len() >= 10 (%s)" % (sz, why),
+                      "unpack_size::<%s> is called without an established buf.len() >= 10: its unchecked buf[SZ - 1] / buf[SZ..] can be out of range" % sz, pt=pt)
+    ctx.floor(R + "b", "callers of v64::unpack_size", ncall, 10)
     # the error discipline of the decode path
     K.r_err(ctx, R + "e", audit, RERR_EXC, err_types=re.compile(r"^(handled::SError|buffertk::Error|prototk::Error)$"))
 
